@@ -304,6 +304,7 @@ APALACHE_INVS = {
     "Inv": "PosIsPermutation /\\ PipelineIsRule /\\ OrderOnly",
     "Inv2": "PosInjective /\\ UnwindRestores /\\ LadderSymmetric /\\ LadderAdjacent /\\ LadderDegree",
     "Inv3": "SortEquivariant /\\ RankEquivariant /\\ TiesOnlyMove",
+    "Inv4": "RankInRange /\\ RankOrder /\\ RankTop /\\ RankOrderOnly",
 }
 
 
